@@ -50,12 +50,51 @@ def setup(ctx):
 
 
 def plan(tier, seed):
-    n = 96 if tier == "quick" else 4800
+    n = 80 if tier == "quick" else 4800
     nsh = 16 if tier == "quick" else 64
     return [{"shard": i, "n": n // nsh} for i in range(nsh)]
 
 
+LIGHT_GENERATORS = ("static_gray", "extended_transform_parameters", "slice_size_scaler", "slice_prefix_bytes", "padding_data",
+                    "absent_next_parse_offset", "concatenated_sequences", "picture_numbers", "repeated_sequence_headers",
+                    "source_parameters_encodings", "custom_quantization_matrix", "default_quantization_matrix",
+                    "lossless_quantization")
+
+
+def _level_case(rng):
+    """a configuration under the real level 1 (Sub-SD): the base format's own dimensions, equally sized slices"""
+    from vc2_conformance.pseudocode.video_parameters import set_source_defaults
+    from vc2_data_tables import BaseVideoFormats
+
+    base = rng.choice([1, 2])  # QSIF525 176x120, QCIF 176x144 (both 4:2:0)
+    vp = set_source_defaults(BaseVideoFormats(base))
+    prof = rng.choice([0, 3])
+    r = dict(base=base, cdf=int(vp["color_diff_format_index"]), pcm=0, ss=int(vp["source_sampling"]), tff=bool(vp["top_field_first"]),
+             w=vp["frame_width"], h=vp["frame_height"], cw=vp["clean_width"], ch=vp["clean_height"], lo=vp["left_offset"],
+             to=vp["top_offset"], fr=None, par=None, range=None, prim=None, mat=None, tf=None, profile=prof, lossless=False,
+             wi=rng.choice([1, 4]), wih=None, d=2, dh=0, sx=2, sy=3, fsc=rng.choice([0, 2, 3]), pb=rng.choice([1200, 1203, 2400]),
+             qm=None, level=1, pics={"n": 1, "class": "mid", "seed": 1, "nums": None})
+    r["wih"] = r["wi"]
+    return r
+
+
+def _wavelet_sweep_case(k):
+    """tiny configuration for the k-th (vertical, horizontal) wavelet pair with a horizontal-only level and a custom matrix"""
+    wi, wih = k // 7, k % 7
+    return dict(base=0, cdf=0, pcm=0, ss=0, tff=True, w=8, h=4, fr=None, par=None, range=[0, 255, 128, 255], prim=None, mat=None,
+                tf=None, profile=3, lossless=bool(k % 2), wi=wi, wih=wih, d=1, dh=1, sx=1, sy=1, fsc=0, pb=None if k % 2 else 64,
+                qm={"0": {"L": 0}, "1": {"H": 1}, "2": {"HL": 1, "LH": 1, "HH": 2}}, level=0,
+                pics={"n": 1, "class": "mid", "seed": 1, "nums": None})
+
+
 def cases(spec, ctx):
+    # light cases (cheap generators only): every wavelet pair with an asymmetric transform, and the real level 1
+    nsh = 16 if spec.get("tier", "quick") == "quick" else 64
+    for k in range(49):
+        if k % nsh == spec["shard"] % nsh:
+            yield {"recipe": _wavelet_sweep_case(k), "light": True, "heavy": False}
+    if spec["shard"] % 8 == 0:
+        yield {"recipe": _level_case(ctx.rng), "light": True, "heavy": False}
     for i in range(spec["n"]):
         big = ctx.rng.random() < 0.2
         space = {"maxw": 16, "maxh": 8, "max_slices": (3, 2), "max_dwt": 2, "max_depth_bits": 12}
@@ -66,6 +105,8 @@ def cases(spec, ctx):
         if big:
             r["w"] = ctx.rng.choice([32, 64])
             r["h"] = 32
+            for kk in ("cw", "ch", "lo", "to"):
+                r.pop(kk, None)
             r["sx"], r["sy"] = 1, ctx.rng.choice([1, 2])
             if r["fsc"]:
                 r["fsc"] = ctx.rng.choice([1, r["sx"] * r["sy"]])
@@ -107,6 +148,8 @@ def run_case(case, ctx):
     ntc = 0
     for gen in DECODER_TEST_CASE_GENERATOR_REGISTRY.iter_independent_generators(cf):
         gname = getattr(getattr(gen, "args", [None])[0], "__name__", "?")
+        if case.get("light") and gname not in LIGHT_GENERATORS:
+            continue
         if gname in HEAVY_GENERATORS and not case.get("heavy", True):
             ctx.count("heavy_generator_skipped:" + gname)
             continue
@@ -128,6 +171,9 @@ def run_case(case, ctx):
         dup = sorted(n for n in set(names) if names.count(n) > 1)
         ctx.violation("duplicate-test-case-name", "test case names are not unique: %r" % (dup[:5],))
     ctx.count("configurations")
+    if case.get("light"):
+        ctx.count("light_configurations:" + ("level-%d" % recipe["level"] if recipe["level"] else "wavelet-pair-sweep"))
+        ctx.note("wavelet_pairs_swept", "%d/%d" % (recipe["wi"], recipe["wih"]))
     ctx.count("stratum:" + configs.stratum(recipe))
     if ctx.rng.random() < 0.05:
         ctx.sample({"recipe": recipe, "test_cases": ntc, "names": names[:8]})
@@ -241,8 +287,8 @@ def floor(agg, tier):
     c = agg["counters"]
     s = 1 if tier == "quick" else 60
     miss = []
-    if c.get("configurations", 0) < 80 * s:
-        miss.append("fewer than %d configurations" % (80 * s))
+    if c.get("configurations", 0) < 100 * s:
+        miss.append("fewer than %d configurations" % (100 * s))
     if c.get("accepted", 0) < 3000 * s:
         miss.append("fewer than %d accepted test cases (%d)" % (3000 * s, c.get("accepted", 0)))
     if c.get("mid_grey_pictures_checked", 0) < 1500 * s:
@@ -251,6 +297,10 @@ def floor(agg, tier):
         miss.append("too few variant pictures checked")
     if c.get("picture_number_cases_checked", 0) < 50 * s:
         miss.append("too few picture-number cases checked")
+    if len(agg["sets"].get("wavelet_pairs_swept", ())) < 49:
+        miss.append("wavelet pair sweep incomplete")
+    if c.get("light_configurations:level-1", 0) < 2:
+        miss.append("fewer than 2 real-level configurations")
     if c.get("test_cases:signal_range", 0) < 20 * s:
         miss.append("signal_range test cases produced fewer than %d times" % (20 * s))
     for name in MID_GREY_CASES + SPRITE_CASES:
